@@ -71,6 +71,12 @@ def make_schema(case, override=False):
     else:
         blob = any_
     cls = univ.Sequence if case['container'] == 'SEQUENCE' else univ.Set
+    extra = []
+    if case.get('second'):
+        # a second open type field governed by the SAME component through its own map (opcode -> argument, result)
+        sec = case['second']
+        ot2 = opentype.OpenType('id', {keycls(gov_py(gk, case['gov'])): build.schema(sec['type'])} if sec['mapped'] else {})
+        extra = [namedtype.NamedType('blob2', univ.Any().subtype(explicitTag=ptag.Tag(ptag.tagClassContext, ptag.tagFormatConstructed, 6)), openType=ot2)]
     govs = keycls()
     id_nt = namedtype.NamedType('id', govs)
     if case.get('gov_absent'):
@@ -81,8 +87,15 @@ def make_schema(case, override=False):
     z = univ.Integer().subtype(implicitTag=ptag.Tag(ptag.tagClassContext, ptag.tagFormatSimple, 9))
     sch = cls(componentType=namedtype.NamedTypes(
         id_nt, (namedtype.OptionalNamedType if case.get('blob_opt') else namedtype.NamedType)('blob', blob, openType=ot),
-        namedtype.NamedType('z', z)))
+        *(extra + [namedtype.NamedType('z', z)]),
+        # (a list after the open type field: options meant for the open type elements must not reach it)
+        namedtype.NamedType('zs', univ.SequenceOf(componentType=univ.Integer()).subtype(
+            implicitTag=ptag.Tag(ptag.tagClassContext, ptag.tagFormatConstructed, 10)))))
     tmap.update(entries)
+    if case.get('wrap_choice'):
+        # the container is the alternative of an explicitly tagged CHOICE (decode options must travel through it)
+        sch = univ.Choice(componentType=namedtype.NamedTypes(namedtype.NamedType('c', sch), namedtype.NamedType('n', univ.Null()))).subtype(
+            explicitTag=ptag.Tag(ptag.tagClassContext, ptag.tagFormatConstructed, 5))
     return sch, inner
 
 
@@ -118,7 +131,12 @@ def run_case(case):
         codec = cname.split('-')[0]
         if f05 and codec in ('CER', 'DER'):
             continue
-        s = sch.clone()
+        top = None
+        if case.get('wrap_choice'):
+            top = sch.clone()
+            s = top.getComponentByName('c')
+        else:
+            s = sch.clone()
         s.clear()
         if not case.get('gov_absent'):
             s['id'] = g
@@ -130,10 +148,13 @@ def run_case(case):
             else:
                 s['blob'] = in_objs[0]
             s['z'] = 7
+            s['zs'].extend([1, 2])
+            if case.get('second'):
+                s['blob2'] = build.value_from(build.schema(case['second']['type']), case['second']['type'], case['second']['value'])
         except (error.PyAsn1Error, IndexError, KeyError) as e:
             F('build-' + cname, 'raises', 'putting the typed inner value into the open field raised %s: %s' % (harness.exc_sig(e), str(e)[:120]), harness.exc_sig(e))
             continue
-        e = lib.encode(codec, s, **kw)
+        e = lib.encode(codec, top if top is not None else s, **kw)
         if not e.ok:
             F('encode-' + cname, 'raises', '%s | field=%s inner=%s' % (e.brief(), case['field'], ir.show_type(Tin)[:80]), e.sig)
             continue
@@ -180,6 +201,26 @@ def run_case(case):
                 F(sub, 'remainder', 'remainder %s | e=%s' % (bytes(d.rest).hex()[:40], e.value.hex()[:120]))
             r = d.value
             try:
+                if case.get('wrap_choice'):
+                    r = r['c']
+                if [int(x) for x in r['zs']] != [1, 2]:
+                    F(sub, 'other-components', 'the list after the open type field came back as %s | e=%s' % (r['zs'].prettyPrint()[:60], e.value.hex()[:120]))
+                if case.get('second') and sw in ('resolve', 'raw'):
+                    sec = case['second']
+                    f2 = r['blob2']
+                    raw2 = lib.encode(codec, build.value_from(build.schema(sec['type']), sec['type'], sec['value']), **kw)
+                    if sw == 'resolve' and sec['mapped'] and not case.get('gov_absent'):
+                        if isinstance(f2, univ.Any):
+                            F(sub, 'second-not-resolved', 'the second open type field (own map) still holds raw octets | e=%s' % e.value.hex()[:120])
+                        else:
+                            ok2, why2 = absval.equal(sec['type'], f2, sec['value'], build.schema(sec['type']))
+                            if not ok2:
+                                F(sub, 'second-value', 'second open type field: %s | e=%s' % (why2, e.value.hex()[:120]))
+                    elif not isinstance(f2, univ.Any):
+                        F(sub, 'second-resolved-unasked', 'the second open type field was decoded as %s although its own map does not map the governing value / resolution is off | e=%s' % (
+                            type(f2).__name__, e.value.hex()[:120]))
+                    elif raw2.ok and bytes(f2.asOctets()) != raw2.value:
+                        F(sub, 'second-octets', 'second field holds %s, encode(inner) is %s' % (bytes(f2.asOctets()).hex()[:60], raw2.value.hex()[:60]))
                 rid = r['id']
                 if case.get('gov_absent'):
                     okid = not rid.isValue
@@ -261,6 +302,11 @@ def run_shard(desc, seed, tier, col):
         if Tin['k'] in PERMISSIVE and not Tin.get('tags') and d.pct(60):
             case['override'] = d.pick(['with-flag', 'map-only'])
         case['fill'] = d.pick(['early', 'early', 'late', 'grow'])
+        if d.pct(15):
+            case['wrap_choice'] = True
+        if d.pct(25) and not case.get('override') and container == 'SEQUENCE':
+            T2 = gen.draw_type(d, 1, root=False, allow_any=False)
+            case['second'] = {'mapped': d.pct(60), 'type': T2, 'value': gen.draw_value(d, T2)}
         if d.pct(25) and case['field'] != 'any':
             case['blob_opt'] = True         # the open type field itself is OPTIONAL (and present); an untagged OPTIONAL ANY in
                                             # front of another component would be ambiguous
@@ -279,7 +325,7 @@ def run_shard(desc, seed, tier, col):
         nontriv = ir.depth(Tin) >= 1 or case['field'] != 'any' or case['container'] == 'SET' or bool(case.get('override'))
         feats = ['field:' + case['field'], 'container:' + case['container'], 'gov:' + case['gov_kind'],
                  'mapped' if any(k == case['gov'] for k, _t in case['map']) else 'unmapped',
-                 'inner:constructed' if ir.depth(Tin) >= 1 else 'inner:primitive'] + (['override'] if case.get('override') else []) + ['map-fill:' + case['fill']] + (['governor-DEFAULT' + ('=value' if case.get('gov_default') == case['gov'] else '')] if case.get('gov_default') is not None else []) + (['field-OPTIONAL'] if case.get('blob_opt') else []) + (['governor-absent'] if case.get('gov_absent') else [])
+                 'inner:constructed' if ir.depth(Tin) >= 1 else 'inner:primitive'] + (['override'] if case.get('override') else []) + ['map-fill:' + case['fill']] + (['governor-DEFAULT' + ('=value' if case.get('gov_default') == case['gov'] else '')] if case.get('gov_default') is not None else []) + (['field-OPTIONAL'] if case.get('blob_opt') else []) + (['governor-absent'] if case.get('gov_absent') else []) + (['inside-tagged-CHOICE'] if case.get('wrap_choice') else []) + (['second-open-field'] if case.get('second') else [])
         col.case(case, nontriv, feats, sample={'map': [[k, ir.show_type(t)[:60]] for k, t in case['map']], 'container': case['container'],
                                                'field': case['field'], 'governing_value': case['gov'], 'inner_type': ir.show_type(Tin)[:80],
                                                'inner_values': absval.short(case['inner_values'], 100)})
@@ -303,7 +349,10 @@ def _f_eoo(failure):
         return False
     case = fz.case_of(failure)
     Tin = case['inner_type']
-    return any(fz.explicit_over_nonindef_prim(Tin, v) for v in case['inner_values'])
+    if any(fz.explicit_over_nonindef_prim(Tin, v) for v in case['inner_values']):
+        return True
+    sec = case.get('second')
+    return bool(sec) and fz.explicit_over_nonindef_prim(sec['type'], sec['value'])
 
 
 
